@@ -82,5 +82,60 @@ async fn main() {
             }
         }
     } }
-    println!("checked {n} handshakes: highest common version accepted iff its data agree, disjoint sets refused with the responder's list");
+
+    // ---- pallas-network2: the responder behaviour, driven through its public entry point with the same pairs of tables ---------------------------
+    {
+        use pallas_network2::behavior::responder::{handshake::{HandshakeResponder, HandshakeResponderConfig}, ResponderBehavior, ResponderEvent, ResponderState};
+        use pallas_network2::behavior::AnyMessage;
+        use pallas_network2::protocol::handshake as hp;
+        use pallas_network2::{BehaviorOutput, InterfaceCommand, PeerId};
+        let table2 = |mask: u32, odd_magic_on: Option<u64>| -> hp::VersionTable<hp::n2n::VersionData> {
+            let mut values = HashMap::new();
+            for (i, v) in VERSIONS.iter().enumerate() { if mask >> i & 1 == 1 { values.insert(*v, hp::n2n::VersionData::new(if odd_magic_on == Some(*v) { MAGIC + 1 } else { MAGIC }, false, Some(1), Some(false))); } }
+            hp::VersionTable { values }
+        };
+        for ours in 0u32..16 { for theirs in 0u32..16 {
+            let common: Vec<u64> = VERSIONS.iter().enumerate().filter(|(i, _)| ours >> i & 1 == 1 && theirs >> i & 1 == 1).map(|(_, v)| *v).collect();
+            let mut variants: Vec<Option<u64>> = vec![None];
+            if let (Some(lo), Some(hi)) = (common.first(), common.last()) { variants.push(Some(*hi)); if lo != hi { variants.push(Some(*lo)); } }
+            for odd in variants {
+                let mut b = ResponderBehavior::default();
+                b.handshake = HandshakeResponder::new(HandshakeResponderConfig { supported_version: table2(ours, None) });
+                let pid = PeerId { host: "127.0.0.1".into(), port: 3001 };
+                b.peers.insert(pid.clone(), ResponderState::new());
+                b.on_inbound_msg(&pid, &AnyMessage::Handshake(hp::Message::Propose(table2(theirs, odd))));
+                let mut sent: Vec<hp::Message<hp::n2n::VersionData>> = vec![];
+                let mut initialized: Vec<u64> = vec![];
+                loop {
+                    let next = tokio::time::timeout(std::time::Duration::from_millis(200), b.outbound.poll_next()).await;
+                    match next { Ok(Some(BehaviorOutput::InterfaceCommand(InterfaceCommand::Send(_, AnyMessage::Handshake(m))))) => sent.push(m),
+                                 Ok(Some(BehaviorOutput::ExternalEvent(ResponderEvent::PeerInitialized(_, (v, _))))) => initialized.push(v),
+                                 Ok(Some(_)) => {}, _ => break }
+                }
+                n += 1;
+                let describe = format!("pallas-network2 responder offers {:?}, peer proposes {:?}{}", VERSIONS.iter().enumerate().filter(|(i, _)| ours >> i & 1 == 1).map(|(_, v)| *v).collect::<Vec<_>>(),
+                    VERSIONS.iter().enumerate().filter(|(i, _)| theirs >> i & 1 == 1).map(|(_, v)| *v).collect::<Vec<_>>(),
+                    match odd { Some(v) => format!(" with a different network magic on version {v}"), None => String::new() });
+                let fail = |what: String| -> ! { println!("VIOLATED: {describe}: {what}"); std::process::exit(1) };
+                let shown = format!("{sent:?}");
+                if sent.len() != 1 { fail(format!("{} handshake messages sent: {shown}", sent.len())); }
+                match (common.last().copied(), odd, &sent[0]) {
+                    (None, _, hp::Message::Refuse(hp::RefuseReason::VersionMismatch(list))) => {
+                        let mut list = list.clone(); list.sort();
+                        let mine: Vec<u64> = VERSIONS.iter().enumerate().filter(|(i, _)| ours >> i & 1 == 1).map(|(_, v)| *v).collect();
+                        if list != mine { fail(format!("the version-mismatch refusal lists {list:?}, the responder's versions are {mine:?}")); }
+                        if !initialized.is_empty() { fail(format!("a refused peer is reported initialized")); }
+                    }
+                    (None, _, _) => fail(format!("disjoint version sets, the responder sent {shown}")),
+                    (Some(hi), odd, hp::Message::Accept(v, d)) if odd != Some(hi) => {
+                        if *v != hi || d.network_magic != MAGIC || initialized != vec![hi] { fail(format!("expected version {hi} to be accepted; sent {shown}, initialized {initialized:?}")); }
+                    }
+                    (Some(hi), odd, _) if odd != Some(hi) => fail(format!("expected version {hi} to be accepted; sent {shown}")),
+                    (Some(hi), _, hp::Message::Refuse(hp::RefuseReason::Refused(v, _))) => { if *v != hi || !initialized.is_empty() { fail(format!("expected a refusal naming version {hi}; sent {shown}, initialized {initialized:?}")); } }
+                    (Some(hi), _, _) => fail(format!("the highest common version {hi} carries a different network magic: expected a refusal naming it, the responder sent {shown}")),
+                }
+            }
+        } }
+    }
+    println!("checked {n} handshakes (both stacks' responders): highest common version accepted iff its data agree, disjoint sets refused with the responder's list");
 }
